@@ -1,6 +1,7 @@
 import PV.Lemmas.SocketCalls
 import PV.Lemmas.SocketGetters
 import PV.Lemmas.SocketFd
+import PV.Lemmas.SocketAdopt
 /-!
 # C10 — Socket modes and lifecycle
 
@@ -412,5 +413,87 @@ example :
        ++ newFromFdAnswers ++ [{ sys := .close, ret := .ok 0 }, { sys := .close, ret := .ok 0 }]) 0).toOption.map
       (fun x => (x.2.map (·.call) |>.filter (fun c => c.sys == .close), fdTable x.2 [])) =
     some ([.close 7, .close 8], some []) := by decide
+
+/-! ## 6. failure paths: a refused address object, a failing adoption
+
+(the branches of `p_socket_bind / connect / send_to` after `p_socket_address_to_native` answered FALSE, and the
+error returns of `p_socket_new_from_fd`; the differential runs reach them through `bad:<hex>` addresses and the
+directed adoption cases of `tools/props/sockets.py`) -/
+
+def convFailed : PErr := { code := P_ERROR_IO_FAILED, native := 0, msg := "Failed to convert socket address to native structure" }
+
+/-- `p_socket_connect` with an address object that `p_socket_address_to_native` rejects: FALSE / FAILED, **no** native
+    call (in particular no `connect` with an uninitialised `sockaddr_storage`), nothing consumed, and the object — its
+    `connected` flag included — is exactly as before; in every mode, whatever the script -/
+theorem refused_address_connect (s : Sock) (hc : s.closed = false) (script : Script) (e : Int) :
+    call s (.connect .bad) script e = .ok { sock := s, out := failOut 0 convFailed, tr := [], rest := script, errno := e } := by
+  simp [call, callM, connect, check, hc, convFailed, M.bind, M.pure, pure]
+
+/-- … `p_socket_send_to`: −1 / FAILED, no wait, no `sendto` -/
+theorem refused_address_send_to (s : Sock) (hc : s.closed = false) (b : Bytes) (n : Nat) (script : Script) (e : Int) :
+    call s (.sendTo .bad (some b) n) script e =
+      .ok { sock := s, out := failOut (-1) convFailed, tr := [], rest := script, errno := e } := by
+  simp [call, callM, sendTo, check, hc, convFailed, M.bind, M.pure, pure]
+
+/-- … `p_socket_bind`: the two best-effort `setsockopt` calls are made (their results are ignored), then FALSE / FAILED
+    and **no** `bind`; the object is unchanged -/
+theorem refused_address_bind (s : Sock) (hc : s.closed = false) (reuse : Bool) (script : Script) (e : Int) (r : CallResult)
+    (h : call s (.bind .bad reuse) script e = .ok r) :
+    r.sock = s ∧ r.out = failOut 0 convFailed ∧
+    r.tr.map (·.call) = [.setsockopt s.fd SOL_SOCKET SO_REUSEADDR (b2i reuse) 4,
+                         .setsockopt s.fd SOL_SOCKET SO_REUSEPORT (b2i (reuse && s.type = P_SOCKET_TYPE_DATAGRAM)) 4] := by
+  cases script with
+  | nil => simp [call, callM, bind, check, hc, sys, M.bind] at h
+  | cons a t =>
+    by_cases hs : a.sys = Sys.setsockopt
+    · cases t with
+      | nil => simp [call, callM, bind, check, hc, sys, M.bind, hs, Issued.sys] at h
+      | cons a2 t2 =>
+        by_cases hs2 : a2.sys = Sys.setsockopt
+        · simp [call, callM, bind, check, hc, sys, M.bind, hs, hs2, Issued.sys, M.pure, pure] at h
+          subst h; simp [convFailed]
+        · simp [call, callM, bind, check, hc, sys, M.bind, hs, hs2, Issued.sys] at h
+    · simp [call, callM, bind, check, hc, sys, M.bind, hs, Issued.sys] at h
+
+/-- non-vacuity: a connected blocking socket, refused address: nothing is issued although the script offers a `connect` answer -/
+example : call demoSockC10 (.connect .bad) [{ sys := .connect, ret := .ok 0 }] =
+    .ok { sock := demoSockC10, out := failOut 0 convFailed, tr := [], rest := [{ sys := .connect, ret := .ok 0 }], errno := 0 } :=
+  refused_address_connect demoSockC10 rfl _ _
+example : (call demoSockC10 (.bind .bad true) [{ sys := .setsockopt, ret := .ok 0 }, { sys := .setsockopt, ret := .err EBADF }, { sys := .bind, ret := .ok 0 }]).toOption.map
+    (fun r => (r.out.ret, r.tr.length, r.rest.length)) = some (0, 2, 1) := by decide
+
+/-- `p_socket_new_from_fd` returns NULL **exactly when** it reports an error, on every script: each error return of
+    `pp_socket_set_details_from_fd` (SO_TYPE failing or answering with an option length other than `sizeof (int)`,
+    `getsockname` failing, the SO_DOMAIN query failing) and of `pp_socket_set_fd_blocking` (F_SETFL failing) and the bad
+    descriptor give NULL + error; the success return gives an object and no error -/
+theorem new_from_fd_null_iff_error (fd : Int) (script : Script) (e : Int) (so : Option Sock) (err : Option PErr) (st : St) (evs : List Ev)
+    (h : runM (newFromFd fd) script e = .ok ((so, err), st, evs)) : so = none ↔ err.isSome = true := by
+  unfold runM at h
+  cases hm : newFromFd fd { script := script, errno := e } with
+  | stop w => simp [hm] at h
+  | ok a st' evs' =>
+    simp [hm] at h
+    obtain ⟨rfl, _, _⟩ := h
+    exact (newFromFd_null_iff_error fd).elim hm
+
+/-- … and it never passes the caller's descriptor to `close()` (nor obtains one): a failed adoption leaves the descriptor
+    with the caller; inside `p_socket_accept` the library closes it itself (`fd_closed_once`) -/
+theorem new_from_fd_keeps_descriptor (fd : Int) (script : Script) (e : Int) (x : Option Sock × Option PErr) (st : St) (evs : List Ev)
+    (h : runM (newFromFd fd) script e = .ok (x, st, evs)) : ∀ ev ∈ evs, ev.call.sys ≠ .close ∧ ev.call.sys ≠ .socket ∧ ev.call.sys ≠ .accept := by
+  unfold runM at h
+  cases hm : newFromFd fd { script := script, errno := e } with
+  | stop w => simp [hm] at h
+  | ok a st' evs' =>
+    simp [hm] at h
+    obtain ⟨_, _, rfl⟩ := h
+    have key : TrAll (fun ev => ev.call.sys ≠ .close ∧ ev.call.sys ≠ .socket ∧ ev.call.sys ≠ .accept) (newFromFd fd) := by
+      unfold newFromFd setDetailsFromFd setFdBlocking
+      tr_all (simp [Issued.sys])
+    exact key.elim hm
+
+/-- non-vacuity: SO_TYPE answers with option length 2 → NULL, INVALID_ARGUMENT, one native call; and a full success -/
+example : (runM (newFromFd 6) [{ sys := .getsockopt, ret := .ok 0, val := 1, len := 2 }] 0).toOption.map
+    (fun x => (x.1.1.isSome, x.1.2.map (·.code), x.2.2.length)) = some (false, some P_ERROR_IO_INVALID_ARGUMENT, 1) := by decide
+example : (runM (newFromFd 6) newFromFdAnswers 0).toOption.map (fun x => (x.1.1.map (·.fd), x.1.2.isSome)) = some (some 6, false) := by decide
 
 end PV.Socket
